@@ -9,6 +9,7 @@ EXPLANATION = (
     "(durations, poll exponents) call: raw +, -, *, unary -, `abs()` and raw `/` (overflow for MIN / -1) on the representation are "
     "reported; the difference of two timestamps is wrapping_sub reinterpreted as signed; scalar division sites only divide by "
     "non-zero literals; the compile_fail witness that timescales do not mix is present in statime-base."
+    ' Wire formats: the 32-bit duration codecs read unsigned and shift symmetrically; from_seconds shifts the seconds into the upper half only when they fit an i32 and saturates otherwise.'
 )
 NOT_DECIDED = ["one-part-per-billion conversion bounds and wire-format tolerances (numeric)",
                "division by a zero scalar panics as every Rust integer division does; all call sites divide by non-zero literals (checked)"]
